@@ -208,6 +208,8 @@ func checkC06Static(c CaseC06Static) error {
 }
 
 // genC06Msg draws a message that exercises every map-built collection and every extension.
+var c06NoSizeClasses bool // set by C18, whose workloads repeat every parse dozens of times under the race detector
+
 func genC06Msg(t *rapid.T, zone string, ext ExtSpec) (*rgen.Msg, int, int) {
 	var m *rgen.Msg
 	switch ext.Kind {
@@ -223,6 +225,7 @@ func genC06Msg(t *rapid.T, zone string, ext ExtSpec) (*rgen.Msg, int, int) {
 		} else {
 			o := rgen.DefaultGenOpts(zone)
 			o.NoPartialDescriptors = true
+			o.NoSizeClasses = c06NoSizeClasses
 			m, _ = rgen.GenMsg(t, o)
 		}
 	}
@@ -302,6 +305,10 @@ func TestC06Static(t *testing.T) {
 		o := sgen.DefaultGenOpts()
 		o.MinServices, o.MaxServices, o.ServiceMix = 3, 6, true
 		f, _ := sgen.GenFeed(t, o)
+		if rapid.IntRange(0, 39).Draw(t, "inflate") == 0 {
+			// hundreds of trips: whatever the parser does differently for large feeds must still be deterministic
+			f = sgen.InflateFeed(f, rapid.SampledFrom([]int{1100, 2100}).Draw(t, "inflateTo"))
+		}
 		p, _ := sgen.GenPresentation(t, f.Tables())
 		c := CaseC06Static{Feed: f, Pres: p, Inherit: rapid.Bool().Draw(t, "inherit")}
 		for i := rapid.IntRange(0, 3).Draw(t, "history"); i > 0; i-- {
